@@ -376,8 +376,12 @@ func c20R3(c *core.Ctx) {
 	}
 }
 
-func c20R5(c *core.Ctx) {
-	rule := "C20.R5"
+func c20R5(c *core.Ctx) { c20R5as(c, "C20.R5") }
+
+// c20R5as emits the decode-table obligations under another rule id: bans are stored and looked
+// up by the key *text* (event.Ban(channel.Key)) while authority is a function of the decoded
+// bytes, so a second accepted spelling of the same bytes walks past a ban (C03, C14).
+func c20R5as(c *core.Ctx, rule string) {
 	c.Rule(rule, "base64 decode table: every store to decodeMap is either the constant 0xFF (fill loop over all 256 entries) or decodeMap[alphabet[i]] = byte(i) with alphabet the 64-character URL-safe constant; decodeKey returns an error for every input byte whose table entry is 0xFF", 2)
 	pk := c.P.SSAPkg("internal/security/cipher")
 	if pk == nil {
